@@ -179,8 +179,43 @@ def trunc_to_int(x):
     return z3.If(x >= 0, z3.ToInt(x), -z3.ToInt(-x))
 
 
+class Cx:
+    """Complex scalar with real/imaginary parts that are Python numbers or z3 Real terms."""
+
+    def __init__(self, re, im=0):
+        self.re = re
+        self.im = im
+
+    def __repr__(self):
+        return f"Cx({self.re}, {self.im})"
+
+
+def cx_binop(op, a, b):
+    a = a if isinstance(a, Cx) else Cx(a, 0)
+    b = b if isinstance(b, Cx) else Cx(b, 0)
+    R = lambda o, x, y: num_binop(o, x, y)
+    if op == "+":
+        return Cx(R("+", a.re, b.re), R("+", a.im, b.im))
+    if op == "-":
+        return Cx(R("-", a.re, b.re), R("-", a.im, b.im))
+    if op == "*":
+        return Cx(R("-", R("*", a.re, b.re), R("*", a.im, b.im)), R("+", R("*", a.re, b.im), R("*", a.im, b.re)))
+    if op == "/":
+        den = R("+", R("*", b.re, b.re), R("*", b.im, b.im))
+        num = cx_binop("*", a, Cx(b.re, R("-", 0, b.im)))
+        return Cx(R("/", num.re, den), R("/", num.im, den))
+    if op == "**" and not is_sym(b.re) and to_frac(b.im) == 0 and isinstance(to_frac(b.re), int) and 0 <= to_frac(b.re) <= 6:
+        r = Cx(1, 0)
+        for _ in range(to_frac(b.re)):
+            r = cx_binop("*", r, a)
+        return r
+    raise Unsupported(f"complex operator {op}")
+
+
 def num_binop(op, a, b):
     """op in + - * / // % ** on scalars (Python numbers / z3 terms)."""
+    if isinstance(a, Cx) or isinstance(b, Cx):
+        return cx_binop(op, a, b)
     if not is_sym(a) and not is_sym(b):
         a, b = to_frac(a), to_frac(b)
         if op == "+":
@@ -399,6 +434,8 @@ def obj_array(x):
 
 def arr_kind_of(values):
     k = "i"
+    if any(isinstance(v, Cx) for v in values):
+        return "c"
     for v in values:
         if not is_sym(v) and not isinstance(v, (int, float, Fraction, bool, np.number)):
             return "o"
@@ -415,6 +452,14 @@ def arr_kind_of(values):
 
 
 def coerce_cell(v, kind):
+    if isinstance(v, Cx):
+        if kind == "c":
+            return v
+        if kind == "f":
+            return to_real(v.re)      # numpy discards the imaginary part (with a warning)
+        return v
+    if kind == "c":
+        return Cx(to_real(v), 0) if (is_sym(v) or isinstance(v, (int, Fraction, bool))) else v
     if kind == "f":
         return to_real(v) if (is_sym(v) or isinstance(v, (int, Fraction, bool))) else v
     if kind == "i":
